@@ -77,9 +77,33 @@ class CFG:
             preds = self._stmt(st, preds, frames)
         return preds
 
+    _RAISING = (ast.Call, ast.Subscript, ast.BinOp, ast.UnaryOp, ast.Compare, ast.Await, ast.Yield, ast.YieldFrom,
+                ast.ListComp, ast.SetComp, ast.DictComp, ast.GeneratorExp, ast.JoinedStr, ast.Starred)
+
     def _evaluating(self, node, frames):
-        """add the implicit-exception edge for a node that evaluates expressions"""
-        self._route_raise(node, "exc", frames)
+        """add the implicit-exception edge for a node whose evaluation can raise (a plain `x.a = name`
+        or `x = name` cannot)"""
+        a = node.ast
+        parts = []
+        if node.kind == "stmt":
+            parts = [a]
+        elif node.kind in ("test", "assert"):
+            parts = [a.test]
+        elif node.kind == "iter":
+            parts = [a.iter]
+        elif node.kind == "next":
+            parts = [a.target, a.iter]
+        elif node.kind == "with":
+            parts = [i.context_expr for i in a.items]
+        elif node.kind == "return":
+            parts = [a.value] if a.value is not None else []
+        can = node.kind in ("next", "with")
+        for p in parts:
+            for x in ast.walk(p):
+                if isinstance(x, self._RAISING) or (isinstance(x, ast.Attribute) and isinstance(x.ctx, ast.Load)) or isinstance(x, (ast.Import, ast.ImportFrom, ast.Delete)):
+                    can = True
+        if can:
+            self._route_raise(node, "exc", frames)
 
     def _stmt(self, st, preds, frames):
         if isinstance(st, _SIMPLE):
@@ -106,6 +130,8 @@ class CFG:
             self._connect(preds, n)
             self._route_raise(n, "false", frames)
             self._evaluating(n, frames)
+            if isinstance(st.test, ast.Constant) and not st.test.value:
+                return []  # `assert False`: never continues
             return [(n, "true")]
         if isinstance(st, ast.If):
             t = self._new("test", st)
@@ -294,7 +320,9 @@ def forward(cfg, init, transfer, join, follow=None, max_iter=200000):
         for s, lab in n.succ:
             if follow is not None and not follow(n, s, lab):
                 continue
-            if isinstance(out, Branch):
+            if lab == "exc":
+                o = state_in[n.id]  # an implicit exception leaves before the node's effect takes place
+            elif isinstance(out, Branch):
                 o = out.get(lab, out.get(None))
             else:
                 o = out
